@@ -8,6 +8,7 @@ import (
 	"encoding/base64"
 	"errors"
 	"fmt"
+	"google.golang.org/protobuf/reflect/protoregistry"
 	"math"
 	"net/url"
 	"strconv"
@@ -181,7 +182,7 @@ func Bind(r *Rule, desc protoreflect.MessageDescriptor, newMsg func(protoreflect
 	switch {
 	case r.Body == "*":
 		if len(body) > 0 {
-			if err := (protojson.UnmarshalOptions{DiscardUnknown: true}).Unmarshal(body, msg); err != nil {
+			if err := (protojson.UnmarshalOptions{DiscardUnknown: true, Resolver: Resolver}).Unmarshal(body, msg); err != nil {
 				return nil, fmt.Errorf("%w: body: %v", ErrInvalid, err)
 			}
 		}
@@ -198,14 +199,14 @@ func Bind(r *Rule, desc protoreflect.MessageDescriptor, newMsg func(protoreflect
 			hb.Set(hb.Descriptor().Fields().ByName("data"), protoreflect.ValueOfBytes(append([]byte(nil), body...)))
 		case fd.Message() != nil && !fd.IsList() && !fd.IsMap():
 			if len(body) > 0 {
-				if err := (protojson.UnmarshalOptions{DiscardUnknown: true}).Unmarshal(body, mr.Mutable(fd).Message().Interface()); err != nil {
+				if err := (protojson.UnmarshalOptions{DiscardUnknown: true, Resolver: Resolver}).Unmarshal(body, mr.Mutable(fd).Message().Interface()); err != nil {
 					return nil, fmt.Errorf("%w: body: %v", ErrInvalid, err)
 				}
 			}
 		default:
 			if len(body) > 0 {
 				wrapped := append(append([]byte(`{"`+fd.JSONName()+`":`), body...), '}')
-				if err := (protojson.UnmarshalOptions{DiscardUnknown: true}).Unmarshal(wrapped, msg); err != nil {
+				if err := (protojson.UnmarshalOptions{DiscardUnknown: true, Resolver: Resolver}).Unmarshal(wrapped, msg); err != nil {
 					return nil, fmt.Errorf("%w: body: %v", ErrInvalid, err)
 				}
 			}
@@ -250,3 +251,10 @@ func Bind(r *Rule, desc protoreflect.MessageDescriptor, newMsg func(protoreflect
 	}
 	return msg, nil
 }
+
+// Resolver resolves messages inside google.protobuf.Any in JSON bodies (the caller may
+// widen it to dynamically known types).
+var Resolver interface {
+	protoregistry.MessageTypeResolver
+	protoregistry.ExtensionTypeResolver
+} = protoregistry.GlobalTypes
